@@ -380,9 +380,9 @@ CheckPurity(T mn, uint64_t n, double alpha, Stats &st)
   Dist twin{mn, mx, alpha};
   Dist copy{orig};
   Dist tmp{orig};
+  const uint64_t h0 = StateHash(orig);  // before the very first call of any member
   std::vector<double> table_before;
   for (uint64_t k = 0; k < std::min<uint64_t>(n, 512); ++k) table_before.push_back(orig.GetCDF(static_cast<T>(k)));
-  const uint64_t h0 = StateHash(orig);
   for (uint64_t seed = 0; seed < 8; ++seed) {
     std::mt19937_64 e0{seed}, e1{seed}, e2{seed}, e3{seed}, e4{seed};
     Dist moved_from{orig};
@@ -487,14 +487,19 @@ ConcurrentScenario()
     SH = new Shared{};
     SH->z = new ZipfDistribution<uint64_t>{5, 5 + 999, 1.0};
     SH->az = new ApproxZipfDistribution<int32_t>{-50, 20000, 0.9};
+    // the sequences each thread gets alone come from equal-parameter twins, so that the shared
+    // generators have never been called before the threads start (first-call effects stay visible)
+    ZipfDistribution<uint64_t> tz{5, 5 + 999, 1.0};
+    ApproxZipfDistribution<int32_t> taz{-50, 20000, 0.9};
     for (int t = 0; t < g_nthreads; ++t) {
       std::mt19937_64 e{static_cast<uint64_t>(1000 + t)};
       for (int i = 0; i < g_draws; ++i) {
-        SH->solo_z[t][i] = (*SH->z)(e);
-        SH->solo_az[t][i] = (*SH->az)(e);
+        SH->solo_z[t][i] = tz(e);
+        SH->solo_az[t][i] = taz(e);
       }
     }
   };
+  s.alloc_points = true;  // allocations inside a call are scheduling points (lazy initialisation, caches)
   s.body = [](int t) {
     std::mt19937_64 e{static_cast<uint64_t>(1000 + t)};
     const auto &z = *SH->z;
@@ -616,7 +621,7 @@ RunJobT(const std::string &kind, int part, bool thorough)
       ns = {199, 200, 201, 255, 256, 257, 999, 1000, 1001, 1100, 2000, 10000};
     } else if (part == 2 && thorough) {
       ns = {100000};
-    } else if (part == 3 && thorough) {
+    } else if (part == 3 && (thorough || !exact)) {
       ns = {1000000};
     } else if (part == 4 && thorough) {
       ns = {3000000};
@@ -624,7 +629,8 @@ RunJobT(const std::string &kind, int part, bool thorough)
     auto alphas = AlphasC18(thorough);
     if (part >= 3) {
       // very large n: coarser alpha grid plus the shortcut neighbourhood
-      alphas = {0.0, 0.5, 0.99, 1.0 - 1e-15, 1.0 - 1e-9, std::nextafter(1.0, 0.0), 1.0, std::nextafter(1.0, 2.0), 1.0 + 1e-9, 1.5, 2.0, 3.0, 50.0};
+      alphas = {0.0, 0.5, 0.85, 0.99, 1.0 - 1e-15, 1.0 - 1e-9, std::nextafter(1.0, 0.0), 1.0, std::nextafter(1.0, 2.0), 1.0 + 1e-9, 1.05, 1.1, 1.2, 1.5, 2.0, 3.0, 50.0};
+      if (!thorough) alphas = {0.5, 0.9, 1.0, 1.05, 1.1, 1.2, 2.0};
     }
     for (uint64_t n : ns)
       for (double a : alphas) CheckC18<T>(n, a, st, exact);
@@ -752,7 +758,9 @@ main(int argc, char **argv)
   } else if (prop == "C18") {
     for (const char *kind : {"c18e", "c18a"})
       for (const char *t : types)
-        for (int part = 0; part < (thorough ? 5 : 2); ++part) {
+        for (int part = 0; part < (thorough ? 5 : 4); ++part) {
+          if (!thorough && part == 2) continue;
+          if (!thorough && part == 3 && (std::string(kind) != "c18a" || std::string(t) != "u64")) continue;  // quick: one large-n approximate job
           if (thorough && part >= 2 && std::string(t) != "u64" && std::string(t) != "i32") continue;  // large n: two types suffice (same code path)
           jobs.push_back(vs::Job{std::string(kind) + ":" + t + ":" + std::to_string(part), ""});
         }
